@@ -99,6 +99,12 @@ def cases(tier, seed):
         c = rand_valid(rng, k)
         c["_cost"] = 10 if c["model"] == "as" else 4
         out.append(c)
+    n = 4 if tier == "quick" else 30
+    for k in range(n):
+        ns = 3 + k % 2
+        out.append(dict(kind="valid", model="multisec", num_sections=ns, symmetry=bool(k % 2 == 0), seed=int(rng.integers(1 << 30)), shift=bool(k % 4 < 3),
+                        nys=[int(rng.integers(2, 5)) if k % 2 == 0 else 3 for _ in range(ns)], nx=int(rng.integers(2, 4)),
+                        flow=dict(alpha=float(np.round(rng.uniform(1, 8), 2)), v=50.0, rho=1.0, Mach_number=0.3, re=1e6), surfaces=[], _cost=6))
     n = 3 if tier == "quick" else 20
     for k in range(n):
         m = int(rng.integers(3, 6))
@@ -258,7 +264,51 @@ def run_warn(c, o):
 
 
 # ---------------------------------------------------------------------------------------------- valid models
+def build_multisec(c):
+    """multi-section surface with user-supplied section meshes, each drawn in its own local frame (edges not coincident), wired as
+    the repository's multi-section tests wire it"""
+    import openmdao.api as om
+    from openaerostruct.geometry.geometry_group import MultiSecGeometry, build_sections
+    from openaerostruct.geometry.geometry_unification import unify_mesh
+    from openaerostruct.aerodynamics.aero_groups import AeroPoint
+
+    rng = np.random.default_rng(c["seed"])
+    ns = c["num_sections"]
+    meshes = []
+    for i in range(ns):
+        half = "left"
+        spec = dict(nx=c["nx"], ny=c["nys"][i] if c["symmetry"] else 3, half=half, span=float(rng.uniform(2, 5)), root_chord=float(rng.uniform(0.8, 1.5)),
+                    offset=[float(rng.uniform(-0.5, 0.5)), float(rng.uniform(-1, 1)), 0.0])
+        meshes.append(M.build(spec))
+    pristine = [m_.copy() for m_ in meshes]  # before the repository sees them
+    surface = {"name": "surface", "is_multi_section": True, "num_sections": ns, "sec_name": ["sec%d" % i for i in range(ns)], "symmetry": c["symmetry"],
+               "S_ref_type": "wetted", "meshes": meshes, "chord_cp": [np.array([1.0, 0.9]) for _ in range(ns)], "CL0": 0.0, "CD0": 0.01, "k_lam": 0.05,
+               "t_over_c_cp": [np.array([0.12]) for _ in range(ns)], "c_max_t": 0.303, "with_viscous": True, "with_wave": False}
+    prob = om.Problem(reports=False)
+    ivc = om.IndepVarComp()
+    fl = dict(zoo.FLOW_DEFAULT)
+    fl.update(c["flow"])
+    for n_ in ("v", "alpha", "Mach_number", "re", "rho", "cg"):
+        ivc.add_output(n_, val=np.array(fl[n_], float), units=zoo.FLOW_UNITS[n_])
+    prob.model.add_subsystem("fc", ivc, promotes=["*"])
+    prob.model.add_subsystem("surface", MultiSecGeometry(surface=surface, shift_uni_mesh=c["shift"]))
+    secs = build_sections(surface)
+    surface["mesh"] = unify_mesh(secs, shift_uni_mesh=c["shift"])
+    prob.model.add_subsystem("aero", AeroPoint(surfaces=[surface]), promotes_inputs=["v", "alpha", "Mach_number", "re", "rho", "cg"])
+    prob.model.connect("surface.surface_unification.surface_uni_mesh", "aero.surface.def_mesh")
+    prob.model.connect("surface.surface_unification.surface_uni_mesh", "aero.aero_states.surface_def_mesh")
+    prob.model.connect("surface.surface_unification.surface_uni_t_over_c", "aero.surface_perf.t_over_c")
+    with warnings.catch_warnings():
+        warnings.simplefilter("ignore")
+        prob.setup()
+    prob._oas_surfaces = [surface]
+    prob._oas_pristine = pristine
+    return prob
+
+
 def build(c):
+    if c["model"] == "multisec":
+        return build_multisec(c)
     case = dict(surfaces=copy.deepcopy(c["surfaces"]), flow=c.get("flow", {}), compressible=c.get("compressible", False))
     if c["model"] == "aero":
         return zoo.build_aero(case, geom=False)
@@ -270,7 +320,7 @@ def build(c):
 
 
 def of_wrt(c):
-    if c["model"] in ("aero", "aero_geom"):
+    if c["model"] in ("aero", "aero_geom", "multisec"):
         return ["aero.CL", "aero.CD"], ["alpha"]
     if c["model"] == "struct":
         return ["failure", "structural_mass"], ["loads"]
@@ -367,6 +417,11 @@ def run_valid(c, o):
     o.true("valid/all_totals_finite", not badJ, "non-finite total derivatives: %s" % badJ[:5], tags=tags)
     d1 = digest_user(user)
     changed = [k for k in d0 if d0[k] != d1.get(k)]
+    if c["model"] == "multisec":
+        # the digest d0 was taken after build_sections/unify_mesh already ran: compare the section meshes with the pristine copies
+        for i, (a_, b_) in enumerate(zip(user[0]["meshes"], prob._oas_pristine)):
+            if not np.array_equal(a_, b_):
+                changed.append("/0/meshes/%d (modified by build_sections/unify_mesh/setup)" % i)
     o.true("valid/user_data_untouched", not changed and set(d0) == set(d1), "user surface dictionary entries modified by setup/run/derivatives: %s" % changed[:6], tags=tags)
     # repeat in the same process (second problem built from the same description)
     _p, steps_b = trace(c)
